@@ -87,7 +87,7 @@ def _direct(seed, tier, model, stats):
                 break
             kind = r.choice(["HP", "LP"])
             order = r.choice([1, 2, 3])
-            SR = r.choice([1, 100, 1e4, 1e9])
+            SR = r.choice([1, 100, 1e4, 1e9, 2.5, 12345.678, 0.75])      # (sample rates need not be whole numbers)
             fc = SR * r.choice([1e-4, 1e-2, 0.12, 0.5, 3])
             if rep == reps:
                 # one strongly attenuating filter per length (gain of the compensation 1e7 .. 1e10)
